@@ -11,7 +11,8 @@ import CifModel.Model.StoreStep
   users are advised "to minimize non-iterator operations performed while any iterator is active on the same target CIF" (cif.h:1999)
   — here, conservatively: while an iterator is open on a CIF, only that iterator's own calls work on that CIF, with one exception:
   a further cif_loop_get_packets on that CIF is in contract — it is refused (one iterator at a time per CIF) and must leave the
-  open iterator and its transaction intact (`WOk.itOpenBusy`; seeded change C06_6).
+  open iterator and its transaction intact (`WOk.itOpenBusy`; seeded change C06_6).  The packet handed to cif_loop_add_packet /
+  cif_pktitr_update_packet is a map: no key twice (`keysDistinct`).
   An op that is not executed (dead handle: the harness skips it, `rc = none`) calls nothing and is in contract.
 -/
 namespace CifModel.Store
@@ -49,7 +50,8 @@ def inContract (w : World) : Op → Bool
   | .ldestroy l | .getCat l | .setCat l _ | .names l | .addItem l _ _ => okL w l
   | .itOpen l => okLOpen w l
   | .addPkt l p => okL w l && keysDistinct p
-  | .itNext _ | .itUpd _ _ | .itRem _ | .itClose _ | .itAbort _ => true
+  | .itUpd _ p => keysDistinct p
+  | .itNext _ | .itRem _ | .itClose _ | .itAbort _ => true
 
 /-- a whole history keeps to the contract: every op is in contract in the world it meets -/
 def inContractHist : World → List Op → Bool
